@@ -46,6 +46,25 @@ fn grid(opts: &Opts, w: &mut dyn Write) {
     let c = grid_case(bytes, a, (cy << 4) | ((a & 1) << 7) | ((v & 1) << 5), v);
     run_case("c05", &c, w);
   }}}}}
+  // signed offsets and displacements, every byte value: ADD SP,e / LD HL,SP+e over edge stack pointers, JR / JR cc over
+  // program counters at both ends of work RAM and high RAM, each under all-clear and all-set flags (JR: every flag nibble)
+  const SPS: [u16; 14] = [0x0000, 0x0001, 0x007f, 0x0080, 0x00ff, 0x0100, 0x0fff, 0x1000, 0x7fff, 0x8000, 0xd000, 0xff80, 0xfffe, 0xffff];
+  for b0 in [0xe8u8, 0xf8] { for e in 0..=255u8 { for &sp in SPS.iter() { for f in [0x00u8, 0xf0] {
+    idx += 1;
+    if idx % nshards != shard { continue; }
+    let mut c = grid_case([b0, e, 0], 0x9c, f, 0x77);
+    c.regs[4] = sp as u32;
+    run_case("c05", &c, w);
+  }}}}
+  for b0 in [0x18u8, 0x20, 0x28, 0x30, 0x38] { for d in 0..=255u8 { for &ip in [0xc000u16, 0xc07e, 0xdf00, 0xff80, 0xfffc].iter() { for fn_ in 0..16u8 {
+    idx += 1;
+    if idx % nshards != shard { continue; }
+    let mut c = grid_case([b0, d, 0], 0x9c, fn_ << 4, 0x77);
+    c.regs[5] = ip as u32;
+    c.pre = vec![(0xc800, 0x77)];
+    for k in 0..3u16 { c.pre.push((ip.wrapping_add(k), [b0, d, 0][k as usize])); }
+    run_case("c05", &c, w);
+  }}}}
 }
 
 pub fn run(sub: &str, opts: &Opts, w: &mut dyn Write) {
